@@ -37,7 +37,7 @@ MINIMA = {'messages_arrived_and_compared': 100000, 'receive_calls_compared': 600
           'msg:headers:request': 5000, 'msg:headers:final': 3000, 'msg:headers:informational': 300, 'msg:headers:trailers': 500, 'msg:data': 8000,
           'msg:rst': 1000, 'msg:push': 500, 'msg:ping': 1000, 'msg:priority': 500, 'msg:settings': 1000, 'msg:window_update': 2000,
           'msg:goaway': 100, 'msg:altsvc': 300, 'auto:settings_ack': 1000, 'auto:ping_ack': 1000, 'auto:window_update': 300,
-          'arrived_on_locally_reset_stream_expect_silence': 300, 'upgraded_starts': 1000, 'settings_in_flight_while_traffic_arrives': 1000, 'settings_frames_overlapping_in_flight': 500}
+          'arrived_on_locally_reset_stream_expect_silence': 300, 'upgraded_starts': 1000, 'preludes_frame_size_change_around_a_promise': 300, 'settings_in_flight_while_traffic_arrives': 1000, 'settings_frames_overlapping_in_flight': 500}
 EXHAUSTIVE = {}
 
 TOKENS = [b'x-a', b'X-Mixed-Case', b'accept', b'user-agent', b'cookie', b'cookie', b'content-type', b'etag', b'authorization', b'x-long-header-name']
@@ -61,6 +61,10 @@ def make_headers(rng, kind, tag):
         h = []
     for _ in range(rng.randrange(0, 4)):
         h.append((rng.choice(TOKENS), rng.choice(VALUES)))
+    if rng.random() < 0.015:
+        # now and then a header block that does not fit one frame (HEADERS + CONTINUATION, cut at whatever MAX_FRAME_SIZE the
+        # receiver has announced, also on promised streams)
+        h.append((b'x-big', bytes(rng.choice(b'abcdefghijklmnopqrstuvwxyz0123456789') for _ in range(rng.choice([17000, 21000, 33000])))))
     h.append((b'x-tag', str(tag).encode()))
     if rng.random() < 0.1:
         h = [(n.decode('latin-1'), v.decode('latin-1')) for n, v in h]      # str headers are accepted too
@@ -807,6 +811,68 @@ def run_case(idx, rng, tier, rep):
                 return f
         return OPS[0][0]
 
+    def settle():
+        for _ in range(20):
+            if not st['alive'] or not (d.pending('c2s') or d.pending('s2c')):
+                break
+            deliver('c2s')
+            if st['alive']:
+                deliver('s2c')
+
+    def prelude_frame_size_change_around_a_promise():
+        """The client raises MAX_FRAME_SIZE, the server promises a stream, the client lowers MAX_FRAME_SIZE again, and only then
+        does the server start the promised stream - with a header block that needs several frames under the lower limit."""
+        C, S = sides['c'], sides['s']
+        sid = C.next_id
+        steps = [('c', 'update_settings', {wire.S_MAX_FRAME_SIZE: rng.choice([32768, 65536])})]
+        for x, op, vals in steps:
+            r = call(x, op, dict(vals))
+            if r.exc is not None:
+                return unexpected_raise(x, r, op)
+            sides[x].unacked_settings.append(vals)
+            enqueue(x, {'k': 'settings', 'values': vals})
+        h0 = make_headers(rng, 'request', tag())
+        r = call('c', 'send_headers', sid, h0, end_stream=True)
+        if r.exc is not None:
+            return unexpected_raise('c', r, 'send_headers(request)')
+        C.next_id += 2
+        sc = C.st[sid] = new_stream('E', 'open')
+        sc['sent'] = 'final'
+        end_local(sc)
+        enqueue('c', {'k': 'headers', 'sid': sid, 'hkind': 'request', 'headers': delivered_form(h0), 'es': True, 'prio': None})
+        ops.append(('prelude', 'frame-size-change-around-a-promise', sid))
+        settle()
+        if not st['alive'] or sid not in S.st:
+            return
+        promised = S.next_id
+        h1 = make_headers(rng, 'request', tag())
+        r = call('s', 'push_stream', sid, promised, h1)
+        if r.exc is not None:
+            return unexpected_raise('s', r, 'push_stream', sid)
+        S.next_id += 2
+        S.st[promised] = new_stream('E', 'resl')
+        enqueue('s', {'k': 'push', 'parent': sid, 'promised': promised, 'headers': delivered_form(h1)})
+        vals = {wire.S_MAX_FRAME_SIZE: 16384}
+        r = call('c', 'update_settings', dict(vals))
+        if r.exc is not None:
+            return unexpected_raise('c', r, 'update_settings')
+        C.unacked_settings.append(vals)
+        enqueue('c', {'k': 'settings', 'values': vals})
+        settle()
+        if not st['alive']:
+            return
+        h2l = make_headers(rng, 'final', tag()) + [(b'x-big', bytes(rng.choice(b'abcdefghijklmnopqrstuvwxyz') for _ in range(rng.choice([17000, 25000]))))]
+        r = call('s', 'send_headers', promised, h2l)
+        if r.exc is not None:
+            return unexpected_raise('s', r, 'send_headers(response)', promised)
+        S.st[promised]['state'] = 'hcr'
+        S.st[promised]['sent'] = 'final'
+        enqueue('s', {'k': 'headers', 'sid': promised, 'hkind': 'final', 'headers': delivered_form(h2l), 'es': False})
+        rep.count('preludes_frame_size_change_around_a_promise')
+        settle()
+
+    if not upgraded and rng.random() < 0.04:
+        prelude_frame_size_change_around_a_promise()
     nsteps = rng.randrange(20, 160)
     p_deliver = rng.choice([0.3, 0.5, 0.8])
     for _ in range(nsteps):
@@ -827,7 +893,9 @@ def run_case(idx, rng, tier, rep):
             if not pend:
                 break
             r0 = rng.random()
-            n = None if r0 < 0.4 else (1 if r0 < 0.5 else rng.randrange(1, max(2, min(pend, 200))))
+            # (large backlogs - a header block of several frames - go out in larger pieces, still cut at arbitrary offsets)
+            hi = 200 if pend < 2000 else pend // 3
+            n = None if r0 < 0.4 else (1 if r0 < 0.5 and pend < 2000 else rng.randrange(1, max(2, min(pend, hi))))
             deliver(dirn, n)
     # drain everything
     for _ in range(60):
